@@ -178,4 +178,36 @@ example : (match float7 0x41AC0000 with | .rat 2150000 100000 => true | _ => fal
 example : (match float7 0x7F800000 with | .finf false => true | _ => false) = true := by decide +kernel
 example : ceilLog10 999 1 = 3 ∧ ceilLog10 1000 1 = 3 ∧ ceilLog10 1001 1 = 4 ∧ ceilLog10 1 10 = -1 := by decide +kernel
 
+/-! ## the right enum for every enum-converted field -/
+
+def pfxEnum : Name := "enum:".toList.map Char.toNat
+def pfxEnumList : Name := "enumlist:".toList.map Char.toNat
+
+/-- the model enum a converter kind names (`enum:E` / `enumlist:E`) -/
+def kindEnum (k : Name) : Option Name :=
+  if pfxEnumList.isPrefixOf k then some (k.drop pfxEnumList.length)
+  else if pfxEnum.isPrefixOf k then some (k.drop pfxEnum.length)
+  else none
+
+/-- for one paired class: every enum-converted field carries, on the wire, the enum type the converter's enum is paired with -/
+def classEnumFieldsOk (cls wmsg : Name) : Bool :=
+  let fields := (Gen.modelClasses.lookup cls).getD []
+  let wfields := (Gen.textFields.lookup wmsg).getD []
+  fields.all fun (f, kind) =>
+    match kindEnum kind with
+    | none => true
+    | some e =>
+      match wfields.find? (fun w => w.1 == f) with
+      | some w => Gen.enumPairs.contains (e, w.2.2.1)
+      | none => false
+
+/-- **C14 (the right enum for every field).**  For every model class paired with a wire message and every field converted
+through an enum (single or list), the enum named by the converter is the model enum paired with the enum TYPE the wire
+field has in api.proto (generated tables). -/
+theorem c14_enum_field_types : ∀ p ∈ Gen.classPairs, classEnumFieldsOk p.1 p.2 = true := by decide +kernel
+
+example : kindEnum ("enumlist:ClimateSwingMode".toList.map Char.toNat) = some ("ClimateSwingMode".toList.map Char.toNat) := by decide
+example : Gen.enumPairs.contains ("ClimateFanMode".toList.map Char.toNat, "ClimateSwingMode".toList.map Char.toNat) = false ∧
+    Gen.enumPairs.contains ("ClimateSwingMode".toList.map Char.toNat, "ClimateSwingMode".toList.map Char.toNat) = true := by decide +kernel
+
 end Esp.C14
